@@ -17,7 +17,7 @@ func (rr *SIG) Sign(k crypto.Signer, m *Msg) ([]byte, error) {
 	if k == nil {
 		return nil, ErrPrivKey
 	}
-	if rr.KeyTag == 0 || rr.SignerName == "" || rr.Algorithm == 0 {
+	if rr.SignerName == "" || rr.Algorithm == 0 {
 		return nil, ErrKey
 	}
 
@@ -82,7 +82,7 @@ func (rr *SIG) Verify(k *KEY, buf []byte) error {
 	if k == nil {
 		return ErrKey
 	}
-	if rr.KeyTag == 0 || rr.SignerName == "" || rr.Algorithm == 0 {
+	if rr.SignerName == "" || rr.Algorithm == 0 {
 		return ErrKey
 	}
 
